@@ -17,6 +17,8 @@ const NAMES: &[&str] = &[
     "area", "base", "basefont", "bgsound", "col", "embed", "hr", "img", "keygen", "link", "meta", "param", "source", "track", "wbr",
     "AREA", "Br", "KEYGEN", "Param", "bgSound", "frame", "image", "menuitem", "command", "div", "span", "li", "p", "table", "option",
     "basefon", "bgsounds", "sources", "tracks", "wb", "col1", "params", "keygens", "hr1", "imgs", "metas", "links", "embeds", "areas", "bases",
+    // integration-point element names: in svg / math context the element ITSELF is foreign
+    "desc", "foreignObject", "mi", "mtext", "font",
 ];
 const DEEP_NAMES: usize = 5;
 const CONTEXTS: &[(&str, &str, Ns)] = &[
